@@ -6,7 +6,12 @@ package c15
 
 import (
 	"bytes"
+	"crypto/md5"
+	"crypto/sha1"
+	"crypto/sha256"
+	"crypto/sha512"
 	"fmt"
+	"hash"
 	"math"
 	"slices"
 	"testing"
@@ -81,15 +86,36 @@ type prfCase struct {
 	h     int    // digest size (16 for CMAC): the n-class unit
 	max   int    // maximum output length
 	p     prf.PRF
+	// hashFn, when set, replaces sym.HashByName(hash): hash functions the property's list does not
+	// name but a constructor might take under another spelling (TestPRFOutOfDomain).
+	hashFn func() hash.Hash
+}
+
+func (c *prfCase) newHash() func() hash.Hash {
+	if c.hashFn != nil {
+		return c.hashFn
+	}
+	return sym.HashByName(c.hash)
+}
+
+// oddHashNames: spellings and hash functions outside the five names the PRF constructors document.
+// C15 does not say that they are refused. fn is the hash function the spelling denotes (nil: it
+// denotes none the harness can name, so an accepted name can be counted but not compared).
+var oddHashNames = []struct {
+	name string
+	fn   func() hash.Hash
+}{
+	{"", nil}, {"SHA3", nil}, {"sha256", sha256.New}, {"SHA-256", sha256.New}, {"MD5", md5.New}, {"SHA512_256", sha512.New512_256},
+	{"sha1", sha1.New}, {"SHA-512", sha512.New}, {"SHA2-384", sha512.New384}, {"SHA256 ", sha256.New},
 }
 
 // ref is the independent value of ComputePRF(x, n) for 0 <= n <= max.
 func (c *prfCase) ref(x []byte, n int) []byte {
 	switch c.alg {
 	case "HMAC":
-		return sym.HMAC(sym.HashByName(c.hash), c.key, x)[:n]
+		return sym.HMAC(c.newHash(), c.key, x)[:n]
 	case "HKDF":
-		return sym.HKDF(sym.HashByName(c.hash), c.key, c.salt, x, n)
+		return sym.HKDF(c.newHash(), c.key, c.salt, x, n)
 	case "CMAC":
 		return sym.CMAC(c.key, x)[:n]
 	}
@@ -529,7 +555,7 @@ func TestCMACPRF(t *testing.T) {
 		kl := 32
 		if route == "subtle" {
 			kl = rapid.SampledFrom([]int{16, 24, 32}).Draw(rt, "keylen")
-		} else if rapid.IntRange(0, 9).Draw(rt, "k16") == 0 {
+		} else if gen.OneIn(rt, "k16", 64) { // a tolerated refusal below: kept rare (was 13 % of the cases by rapid's small-value bias)
 			kl = 16
 		}
 		keyBytes := gen.BytesN(rt, "key", kl)
@@ -807,11 +833,13 @@ func TestComputeHKDFHelper(t *testing.T) {
 // construction stage, never a panic. Three kinds are only half outside: the key object accepts them
 // and only the primitive constructor refuses them today (HKDF-PRF with SHA1/224/384, HKDF-PRF keys of
 // 16..31 bytes, AES-CMAC-PRF with a 16-byte key); for those either a clean refusal or a primitive
-// that passes the whole C15 oracle is fine.
+// that passes the whole C15 oracle is fine. The same rule holds for hash-name spellings outside the
+// five documented names (oddHashNames): refused => fine; accepted => the standard function of the hash
+// the name denotes (counted only when it denotes none).
 func TestPRFOutOfDomain(t *testing.T) {
 	rapid.Check(t, func(rt *rapid.T) {
 		detrand.Seed(rapid.Uint64().Draw(rt, "entropy"))
-		kind := rapid.SampledFrom([]string{"hmac-shortkey", "hkdf-shortkey", "hkdf-hash", "cmac-16", "cmac-size", "cmac-subtle-size", "subtle-hash", "helper-hash", "unknown-hashtype"}).Draw(rt, "kind")
+		kind := gen.Pick(rt, "kind", []string{"hmac-shortkey", "hkdf-shortkey", "hkdf-hash", "cmac-16", "cmac-size", "cmac-subtle-size", "subtle-hash", "helper-hash", "unknown-hashtype"})
 		route := rapid.SampledFrom(keyRoutes).Draw(rt, "route")
 		var err error
 		var built *prfCase // set for the kinds where only the primitive constructor (not the key object) refuses
@@ -854,22 +882,57 @@ func TestPRFOutOfDomain(t *testing.T) {
 			route = "subtle"
 			_, _, err = buildCMACPRF(rt, make([]byte, kl), "subtle")
 		case "subtle-hash":
-			name := rapid.SampledFrom([]string{"", "SHA3", "sha256", "SHA-256", "MD5", "SHA512_256"}).Draw(rt, "name")
-			detail = fmt.Sprintf("%q", name)
+			odd := gen.Pick(rt, "name", oddHashNames)
+			detail = fmt.Sprintf("%q", odd.name)
 			route = "subtle"
+			keyBytes := gen.BytesN(rt, "key", 32)
+			var p prf.PRF
+			var c *prfCase
 			if rapid.Bool().Draw(rt, "hkdf") {
-				_, err = prfsubtle.NewHKDFPRF(name, make([]byte, 32), nil)
+				salt := drawSalt(rt, "salt")
+				p, err = prfsubtle.NewHKDFPRF(odd.name, bytes.Clone(keyBytes), bytes.Clone(salt))
+				c = &prfCase{alg: "HKDF", hash: odd.name, key: keyBytes, salt: salt, route: route, p: p, hashFn: odd.fn}
 			} else {
-				_, err = prfsubtle.NewHMACPRF(name, make([]byte, 32))
+				p, err = prfsubtle.NewHMACPRF(odd.name, bytes.Clone(keyBytes))
+				c = &prfCase{alg: "HMAC", hash: odd.name, key: keyBytes, route: route, p: p, hashFn: odd.fn}
+			}
+			if err == nil {
+				// refused => fine; built => the PRF of the hash function the name denotes
+				if odd.fn == nil {
+					evid.Add("observed_not_asserted/hash_name_accepted_no_reference", 1)
+					evid.Case("outofdomain/"+kind+"/built-uncompared", true, evid.NewH().S(kind).S(detail).S(c.alg).Sum(), func() any { return kind + " " + detail + ": built, no reference" })
+					return
+				}
+				c.h = odd.fn().Size()
+				c.max = c.h
+				if c.alg == "HKDF" {
+					c.max = 255 * c.h
+				}
+				built = c
 			}
 		case "helper-hash":
-			name := rapid.SampledFrom([]string{"", "SHA3", "sha256", "SHA-256", "MD5", "SHA512_256"}).Draw(rt, "name")
-			detail = fmt.Sprintf("%q", name)
+			odd := gen.Pick(rt, "name", oddHashNames)
+			detail = fmt.Sprintf("%q", odd.name)
 			route = "helper"
+			ikm, salt, info := gen.BytesN(rt, "key", 32), drawSalt(rt, "salt"), gen.Bytes(rt, "info", 40)
+			l := rapid.IntRange(1, 100).Draw(rt, "l")
 			var out []byte
-			out, err = tinksubtle.ComputeHKDF(name, make([]byte, 32), nil, nil, 32)
-			if err == nil || len(out) != 0 {
-				rt.Fatalf("ComputeHKDF with hash name %q returned %x, %v", name, out, err)
+			out, err = tinksubtle.ComputeHKDF(odd.name, bytes.Clone(ikm), bytes.Clone(salt), bytes.Clone(info), uint32(l))
+			if err != nil && len(out) != 0 {
+				rt.Fatalf("ComputeHKDF with hash name %q failed (%v) but returned %x", odd.name, err, out)
+			}
+			if err == nil {
+				// "whenever it returns output, RFC 5869 output for the given hash"
+				if odd.fn == nil {
+					evid.Add("observed_not_asserted/hash_name_accepted_no_reference", 1)
+					evid.Case("outofdomain/"+kind+"/built-uncompared", true, evid.NewH().S(kind).S(detail).Sum(), func() any { return kind + " " + detail + ": output, no reference" })
+					return
+				}
+				if want := sym.HKDF(odd.fn, ikm, salt, info, l); !bytes.Equal(out, want) {
+					rt.Fatalf("ComputeHKDF(%q, key=%x, salt=%s, info=%x, L=%d) = %x, RFC 5869 with the hash function this name denotes says %x", odd.name, ikm, saltStr(salt), info, l, out, want)
+				}
+				evid.Case("outofdomain/"+kind+"/"+route+"/built", true, evid.NewH().S(kind).S(detail).B(ikm).B(salt).B(info).I(int64(l)).Sum(), func() any { return kind + " " + detail + ": output and correct" })
+				return
 			}
 		case "unknown-hashtype":
 			route = "params"
